@@ -720,7 +720,7 @@ func (g *docGen) directive() string {
 func (g *docGen) typeCondition(p *TypeSpec) string {
 	k := g.r.Intn(100)
 	switch {
-	case k < 70:
+	case k < 84:
 		return hx.Pick(g.r, g.related(p))
 	case k < 96:
 		return hx.Pick(g.r, g.composite())
